@@ -973,7 +973,10 @@ def valtab(ctx, pid):
             probs.append("a node is accepted on a path that does not establish one of the three legal shapes")
     c = "table:validate_is_node"
     allc = {"blank", "kv-list", "kv-bytes", "branch-0", "child-blank", "child-list", "child-hash", "other"}
-    if probs:
+    recursive = any(isinstance(n_, ast.Call) and isinstance(n_.func, ast.Name) and n_.func.id == f.name for n_ in ast.walk(f.node))
+    if probs and not recursive:
+        ctx.unsure(c, f.loc(), "validate_is_node no longer recurses into embedded nodes (an explicit work list?): the case table is written for the recursive form (%s)" % probs[0][:80])
+    elif probs:
         ctx.bad(c, f.loc(), probs[0], witness={"problems": sorted(set(probs))[:8]})
     elif seen != allc:
         ctx.unsure(c, f.loc(), "cases of validate_is_node not found: %s" % sorted(allc - seen))
